@@ -1,2 +1,51 @@
-(* C14 — placeholder *)
-From HC Require Import Base.
+(* C14 — behaviour is independent of the node cache (pinned statements; proofs in Cache.v).
+   The crate looks a tree node up in the cache first, then in the unflushed map, then in the tree
+   store; it caches what it read from the store; the cache library may evict anything at any time.
+   What is proved: for every cache content that this rule can produce, under any eviction, every
+   lookup answers exactly what the cache-less lookup answers, in both lookup modes.
+   Not proved here (covered by the configuration sweep of tools/c14.py): that the storage backends
+   implement the file semantics of Storage.v, moka internals, the OS file system. *)
+From HC Require Import Base NMap Codec Crypto FlatTree Storage Oplog Merkle Cache.
+
+Theorem C14_cache_transparent : forall cache t tf,
+  cache_ok cache t tf -> forall i am, node_get_cached cache t tf i am = node_get t tf i am.
+Proof. exact cached_lookup_transparent. Qed.
+
+Theorem C14_cache_starts_valid : forall t tf, cache_ok nm_empty t tf.
+Proof. exact cache_ok_empty. Qed.
+
+Theorem C14_cache_insert_keeps_valid : forall cache t tf i am n,
+  cache_ok cache t tf -> node_get t tf i am = Ok (Some n) -> cache_ok (nm_set i n cache) t tf.
+Proof. exact cache_ok_insert. Qed.
+
+Theorem C14_cache_any_eviction : forall cache cache' t tf,
+  cache_ok cache t tf -> submap cache' cache -> cache_ok cache' t tf.
+Proof. exact cache_ok_evict. Qed.
+
+Theorem C14_cache_survives_immutable_updates : forall cache t tf n,
+  cache_ok cache t tf -> node_blank n = false ->
+  (forall m, nm_get (n_index n) cache = Some m -> m = n) ->
+  cache_ok cache (tree_add_node t n) tf.
+Proof. exact cache_ok_add_node. Qed.
+
+Theorem C14_required_node_transparent : forall cache t tf i,
+  cache_ok cache t tf -> required_node_cached cache t tf i = required_node t tf i.
+Proof. exact required_node_cached_transparent. Qed.
+
+(* non-vacuity: a cache holding a node that sits in the unflushed map is valid, and is consulted *)
+Example C14_ex :
+  let n := mkNode 4 7 (repeat 9 32) in
+  let t := tree_add_node (mkTree [] 0 0 0 None nm_empty) n in
+  cache_ok (nm_set 4 n nm_empty) t file_empty /\
+  node_get_cached (nm_set 4 n nm_empty) t file_empty 4 false = Ok (Some n).
+Proof.
+  split; [|reflexivity].
+  apply (cache_ok_insert nm_empty _ _ 4 false); [apply cache_ok_empty | reflexivity].
+Qed.
+
+Print Assumptions C14_cache_transparent.
+Print Assumptions C14_cache_starts_valid.
+Print Assumptions C14_cache_insert_keeps_valid.
+Print Assumptions C14_cache_any_eviction.
+Print Assumptions C14_cache_survives_immutable_updates.
+Print Assumptions C14_required_node_transparent.
